@@ -1,12 +1,24 @@
 #!/bin/bash
-# try_mutant.sh <patch> <property> [tier]: apply a patch to /repo, run the check, undo the patch.
+# try_mutant.sh <patch> <property> [tier]: run a check against /repo + patch.
+# The patch is applied to a scratch copy of /repo's working tree (DSIM_REPO points the
+# check at it), so /repo itself and any background run reading it are not disturbed;
+# evidence and replay files go to $TMPDIR/dsim-mutant-out, never into /verif.
+# With IN_REPO=1 the patch is applied to /repo itself (git apply) and undone afterwards.
 set -u
 P="$1"; PROP="$2"; TIER="${3:-quick}"
-cd /repo || exit 2
-git diff --quiet || { echo "try_mutant: /repo is not clean" >&2; exit 2; }
-git apply "$P" || { echo "try_mutant: patch does not apply" >&2; exit 2; }
-(cd /verif && DSIM_KEEP_EVIDENCE=1 ./run.sh check "$PROP" "$TIER"); rc=$?
-git -C /repo checkout -- . 
-git -C /repo clean -fdq
-echo "try_mutant: $(basename "$P") $PROP $TIER -> exit $rc"
+if [ "${IN_REPO:-0}" = 1 ]; then
+  cd /repo || exit 2
+  git diff --quiet || { echo "try_mutant: /repo is not clean" >&2; exit 2; }
+  git apply "$P" || { echo "try_mutant: patch does not apply" >&2; exit 2; }
+  (cd /verif && DSIM_KEEP_EVIDENCE=1 ./run.sh check "$PROP" "$TIER"); rc=$?
+  git -C /repo checkout -- .
+  git -C /repo clean -fdq
+else
+  W=$(mktemp -d "${TMPDIR:-/tmp}/mutrepo-XXXXXX")
+  rsync -a --exclude .git /repo/ "$W/" || exit 2
+  (cd "$W" && git init -q . >/dev/null 2>&1; git apply "$P") || { echo "try_mutant: patch does not apply" >&2; rm -rf "$W"; exit 2; }
+  (cd /verif && DSIM_REPO="$W" DSIM_KEEP_EVIDENCE=1 ./run.sh check "$PROP" "$TIER"); rc=$?
+  rm -rf "$W"
+fi
+echo "try_mutant: $(basename "$(dirname "$P")")/$(basename "$P") $PROP $TIER -> exit $rc"
 exit $rc
